@@ -8,7 +8,7 @@ out=$(mktemp -d /tmp/regress-seeded.XXXXXX)
 ls seeded | grep '^S-' | xargs -P "$jobs" -I{} sh -c "python3 tools/seeded.py check {} $seedarg > $out/{}.log 2>&1"
 missed=0
 for f in "$out"/*.log; do
-  if ! tail -1 "$f" | grep -q caught || tail -1 "$f" | grep -q MISSED; then echo "NOT CAUGHT: $(tail -1 "$f" | cut -c1-300)"; missed=$((missed+1)); fi
+  if ! tail -1 "$f" | grep -q caught; then echo "NOT CAUGHT: $(tail -1 "$f" | cut -c1-300)"; missed=$((missed+1)); fi
 done
 echo "seeded changes not caught: $missed / $(ls "$out" | wc -l)"
 rm -rf "$out"
